@@ -281,6 +281,24 @@ func main() {
 			})
 			alt("hint-count-above-omega", func(b []byte) { b[hoff+p.Omega+p.K-1] = byte(p.Omega + 1) })
 			alt("hint-count-255", func(b []byte) { b[hoff+p.Omega] = 255 })
+			// the whole hint section strictly increasing, with counts beyond omega + k: a decoder that checks "indices increase" while it walks
+			// towards the count, and the count only afterwards, walks off the end of the signature
+			alt("hint-all-increasing-count-past-end", func(b []byte) {
+				for i := 0; i < p.Omega; i++ {
+					b[hoff+i] = byte(i)
+				}
+				for i := 0; i < p.K; i++ {
+					b[hoff+p.Omega+i] = byte(p.Omega + p.K + 1 + i)
+				}
+			})
+			alt("hint-all-increasing-count-at-end", func(b []byte) {
+				for i := 0; i < p.Omega; i++ {
+					b[hoff+i] = byte(i)
+				}
+				for i := 0; i < p.K; i++ {
+					b[hoff+p.Omega+i] = byte(p.Omega + 1 + i)
+				}
+			})
 			alt("hint-removed", func(b []byte) { // drop the last index: a different vector, the commitment no longer matches
 				if total > 0 {
 					b[hoff+total-1] = 0
